@@ -36,6 +36,8 @@ type VPCase struct {
 	Xs    []int             `json:"xs"`       // vslice: the configured list
 	Ptr   bool              `json:"ptr"`      // vnest: the nested member is a pointer to a struct
 	X     string            `json:"nx"`       // vnest: absent | 0 | 5 (the nested struct's only field)
+	VArg  string            `json:"varg"`     // missing: "" = no validate argument, "-" = bare `validate` (struct validation), else the constraints
+	Opt   bool              `json:"opt"`      // validate / vslice: the point also says required=false (a bound value is validated all the same)
 }
 type VPCons struct {
 	K string `json:"k"`
@@ -251,6 +253,12 @@ func runVP(c *VPCase) map[string]any {
 		if !c.Req {
 			opt = ",required=false"
 		}
+		// ... and the point may carry a validate argument: nothing is bound, so there is nothing to validate
+		if c.VArg == "-" {
+			opt += ",validate"
+		} else if c.VArg != "" {
+			opt += ",validate=" + c.VArg
+		}
 		switch c.Tag {
 		case "prop":
 			tag = fmt.Sprintf(`prop:"nokey%s"`, opt)
@@ -263,7 +271,7 @@ func runVP(c *VPCase) map[string]any {
 		ok, val, p := bindOnce(t, tag, "other: 1\n")
 		zero := reflect.Zero(t)
 		out["tag"], out["ftype"], out["required"], out["ok"], out["panic"] = c.Tag, c.FType, c.Req, ok, p
-		out["zero"] = val == render(zero)
+		out["zero"], out["varg"] = val == render(zero), c.VArg
 	case "vstruct":
 		// a struct bound by prefix whose member carries the constraints; the validate argument on the point switches it on
 		var cs []string
@@ -353,7 +361,11 @@ func runVP(c *VPCase) map[string]any {
 		if xs == nil {
 			xs = []int{}
 		}
-		ok, _, p := bindOnce(vpTypes["ints"], fmt.Sprintf(`value:%q`, "${x},validate="+strings.Join(cs, " ")), "x: "+jsonOf(xs)+"\n")
+		opt := ""
+		if c.Opt {
+			opt = ",required=false"
+		}
+		ok, _, p := bindOnce(vpTypes["ints"], fmt.Sprintf(`value:%q`, "${x}"+opt+",validate="+strings.Join(cs, " ")), "x: "+jsonOf(xs)+"\n")
 		out["xs"], out["cons"], out["ok"], out["panic"] = xs, c.Cons, ok, p
 	case "validate":
 		var cs []string
@@ -365,6 +377,9 @@ func runVP(c *VPCase) map[string]any {
 			}
 		}
 		tag := "${x}"
+		if c.Opt {
+			tag += ",required=false"
+		}
 		if len(cs) > 0 {
 			tag += ",validate=" + strings.Join(cs, " ")
 		}
